@@ -201,6 +201,9 @@ pub struct Scenario {
     /// spectator's handle, the spectator for its host) instead of the first remote player
     #[serde(default)]
     pub stats_spectator: bool,
+    /// the sessions run with the five-byte input type `Wide` instead of `u8`
+    #[serde(default)]
+    pub wide: bool,
 }
 
 impl Scenario {
@@ -235,6 +238,7 @@ impl Scenario {
             no_checksum: Vec::new(),
             extra_polls: false,
             stats_spectator: false,
+            wide: false,
         }
     }
 
@@ -297,6 +301,7 @@ impl Scenario {
         f.push(format!("poll-only-peer={}", self.peers.iter().any(|p| p.poll_only)));
         f.push(format!("polls-between-ticks={}", self.extra_polls || self.script.iter().any(|i| i.action == Action::Poll)));
         f.push(format!("no-checksum-game={}", !self.no_checksum.is_empty()));
+        f.push(format!("wide-input={}", self.wide));
         f.push(format!("input-style={}", self.peers.iter().map(|p| p.input_style).max().unwrap_or(0)));
         f.push(format!("diverging-game={}", self.diverge.is_some()));
         f.push(format!("handshake-phase={}", self.handshake_phase));
